@@ -873,6 +873,12 @@ class HTTPResponse(BaseHTTPResponse):
             # StringIO doesn't like amt=None
             return self._fp.read(amt) if amt is not None else self._fp.read()
 
+    def _has_negative_chunk_length(self) -> bool:
+        # http.client parses the chunk-size line with int(line, 16), which
+        # accepts a leading minus sign.
+        chunk_left = getattr(self._fp, "chunk_left", None)
+        return self.chunked and isinstance(chunk_left, int) and chunk_left < 0
+
     def _raw_read(
         self,
         amt: int | None = None,
@@ -888,7 +894,16 @@ class HTTPResponse(BaseHTTPResponse):
         fp_closed = getattr(self._fp, "closed", False)
 
         with self._error_catcher():
-            data = self._fp_read(amt, read1=read1) if not fp_closed else b""
+            try:
+                data = self._fp_read(amt, read1=read1) if not fp_closed else b""
+            except ValueError as e:
+                if self._has_negative_chunk_length():
+                    raise ProtocolError("Response has a negative chunk length") from e
+                raise
+            if self._has_negative_chunk_length():
+                # http.client accepts a negative chunk size and then hands out
+                # whatever follows on the wire as if it were body data.
+                raise ProtocolError("Response has a negative chunk length")
             if amt is not None and amt != 0 and not data:
                 # Platform-specific: Buggy versions of Python.
                 # Close the connection when no data is returned
@@ -1157,6 +1172,8 @@ class HTTPResponse(BaseHTTPResponse):
         line = line.split(b";", 1)[0]
         try:
             self.chunk_left = int(line, 16)
+            if self.chunk_left < 0:
+                raise ValueError("negative chunk length")
         except ValueError:
             self.close()
             if line:
